@@ -32,6 +32,7 @@ import (
 	"fmt"
 	"io"
 	"os"
+	"reflect"
 	"strings"
 	"sync"
 	"sync/atomic"
@@ -380,10 +381,24 @@ func tsPayload(b []byte, pid uint16) []byte {
 	return out
 }
 
+// hlsOf returns the stream's HLS access, nil when it has none. (Hlsable()
+// returns a *hls.Playlist typed nil inside a non-nil interface for streams
+// without HLS, so the interface value alone does not tell.)
+func hlsOf(s *media.Stream) media.Hlsable {
+	h := s.Hlsable()
+	if h == nil {
+		return nil
+	}
+	if v := reflect.ValueOf(h); v.Kind() == reflect.Ptr && v.IsNil() {
+		return nil
+	}
+	return h
+}
+
 // hlsHas reports whether any segment the playlist still serves holds tag in any
 // elementary stream.
 func (r *rig) hlsHas(tag []byte) bool {
-	h := r.s.Hlsable()
+	h := hlsOf(r.s)
 	if h == nil {
 		return false
 	}
@@ -458,7 +473,7 @@ func runCase(c *caseSpec, inject bool) *result {
 	defer b.s.Close()
 	res := &result{}
 	res.HasFLV = a.s.Video.Codec == "H264" || a.s.Video.Codec == "H265"
-	res.HasHLS = a.s.Hlsable() != nil
+	res.HasHLS = hlsOf(a.s) != nil
 	k := c.ProbeK
 	if k <= 0 {
 		k = 3
